@@ -120,6 +120,25 @@ NOT_APPLICABLE = [
 
 PENDING = {}
 
+# round 2 additions to the level texts (DESIGN.md section 10.4)
+ADDENDA = {
+    "C01": " Round 2: every corpus seed also in the quick tier; the standard-library composite schedules (45 entries of exo.stdlib.stdlib / halide_scheduling_ops / scheduling, vlib/composites.py) are swept as operations, and a violating composite is decomposed by a harness-side trace of AtomicSchedulingOp calls and re-checked primitive by primitive; complete small grids of numeric arguments (vlib/tight_sched.py) for resize_dim, stage_mem windows, cut/shift/divide_loop and expand_dim.",
+    "C04": " Round 2: as C01 (all seeds in quick, composite schedules with localisation to primitives, tight argument grids). Window intervals overhanging their base and empty allocations are informational, not obligations (DESIGN Corrections).",
+    "C07": " Round 2: composite schedules included; a procedure that can no longer be encoded after a call counts as changed; the job of a seed ends at the first impurity.",
+    "C17": " Round 2: composite schedules included.",
+    "C03": " Round 2: tight families (vlib/tight.py), always complete: 216 guard programs (every comparison operator x then/else x constant x offset, compound/nested/symbolic guards), 30 window-composition programs, 43 aliasing programs (two views of one buffer through aliases of depth 0-3 as call arguments), 44 call/loop programs; plus a grammar-based generator pool.",
+    "C05": " Round 2: tight family corpus/tight_replace.py: 11 callees x 34 hosts that are exact instances or miss being one by a single edit (added else-branch, shifted index, other comparison, non-zero lower bound, swapped/commuted operands, transposed/strided/reversed access, second statement on another buffer, two different div/mod index expressions).",
+    "C06": " Round 2: L1 harnesses for moves inside one branch of an if observed from the other branch; L2 also requires every forwarded cursor (and a gap's / block's anchor) to be rooted in the derived procedure, and a gap to keep its side of an unchanged anchor statement.",
+    "C09": " Round 2: an 80-program grid of parallel loops (vlib/tight.py par_family: write a*i+b / read c*i+d, rows through windows of windows against direct accesses, reductions, scalars, nesting, configuration reads and writes directly and in callees); whatever the backend compiles is model-checked.",
+    "C10": " Round 2: every config/call seed in quick; seeds whose configuration write is only read in a later loop iteration.",
+    "C11": " Round 2: API-level clauses observed on the real Procedure objects alongside the inductive step (different origin, or separated by partial_eval / transpose / add_assertion => never reported equivalent; simplify+rename => equivalent).",
+    "C12": " Round 2: a complete grid of (a*i + b*j + c) op 4 expressions for every sign of a and every c around the multiples of 4 under six loop shapes (zero / non-zero, literal / symbolic lower bounds).",
+    "C16": " Round 2: L1 harnesses for expand / next / prev inside an else-branch whose length differs from the then-branch; completeness of name patterns (every use of a control variable reachable through the public cursor API, including loop lower bounds, is found).",
+    "C19": " Round 2: the derived procedure's safety obligations (call-site assertions such as stride preconditions, bounds, shapes) are posed to z3 as well.",
+    "C02": " Round 2: every seed in quick; allocation-lifetime and floor-division index families (vlib/tight.py mem_family, idx_family).",
+    "C08": " Round 2: every seed in quick; allocation-lifetime family (the last use of a buffer in every syntactic position: then/else/nested else/loop/call argument/window alias) and floor-division index family.",
+}
+
 
 def main():
     checks = []
@@ -131,7 +150,7 @@ def main():
             "evidence_file": f"evidence/{pid}.json",
             "replay_cmd_template": "./vcheck replay {path}",
             "engine": c["engine"],
-            "level_claimed": {"category": c["category"], "text": c["text"], "design_ref": f"DESIGN.md section {c['design']}"},
+            "level_claimed": {"category": c["category"], "text": c["text"] + ADDENDA.get(pid, ""), "design_ref": f"DESIGN.md section {c['design']}"},
             "level_note": c["note"],
             "technique": c["technique"],
         })
